@@ -303,16 +303,22 @@ def structural(ctx):
             if not ctx.mine(idx):
                 continue
             ctx.evaluation(('lags-leads', combo), nontrivial=True)
-            subs = {f'm{i}': models[i](range(12)) for i in combo}
-            lk = fsic.BaseLinker(subs)
             want = (max([models[i].LAGS for i in combo] + [0]), max([models[i].LEADS for i in combo] + [0]))
-            ctx.count('structural_checks')
-            if (lk.LAGS, lk.LEADS) != want or (lk.lags, lk.leads) != want:
-                ctx.violation('linker-lags-leads', f'linker over {[scripts[i] for i in combo]}: LAGS/LEADS {(lk.LAGS, lk.LEADS)}, lags/leads {(lk.lags, lk.leads)}, expected {want}', {'kind': 'lags-leads', 'combo': list(combo)})
-            if combo:
-                got = call(lk.solve, max_iter=3, failures='ignore')
-                if got[0] == 'ret' and list(got[1][1]) != list(range(want[0], 12 - want[1])):
-                    ctx.violation('linker-default-range', f'linker default range {got[1][1]}, expected {list(range(want[0], 12 - want[1]))}', {'kind': 'lags-leads', 'combo': list(combo)})
+            # the submodels are built over equal spans - separate span objects, or one and the same object handed to all of
+            # them - and in either insertion order
+            shared_list, shared_range = list(range(12)), range(12)
+            for how, span_of in (('separate', lambda: range(12)), ('one-list-object', lambda: shared_list), ('one-range-object', lambda: shared_range), ('separate-lists', lambda: list(range(12)))):
+                for order in (combo, combo[::-1]):
+                    subs = {f'm{i}': models[i](span_of()) for i in order}
+                    lk = fsic.BaseLinker(subs)
+                    ctx.count('structural_checks')
+                    if (lk.LAGS, lk.LEADS) != want or (lk.lags, lk.leads) != want:
+                        ctx.violation('linker-lags-leads', f'linker over {[scripts[i] for i in order]} ({how} spans): LAGS/LEADS {(lk.LAGS, lk.LEADS)}, lags/leads {(lk.lags, lk.leads)}, expected {want}', {'kind': 'lags-leads', 'combo': list(order), 'spans': how})
+                        continue
+                    if combo:
+                        got = call(lk.solve, max_iter=3, failures='ignore')
+                        if got[0] == 'ret' and list(got[1][1]) != list(range(want[0], 12 - want[1])):
+                            ctx.violation('linker-default-range', f'linker default range {got[1][1]}, expected {list(range(want[0], 12 - want[1]))} ({how} spans)', {'kind': 'lags-leads', 'combo': list(order), 'spans': how})
     # differing spans
     for k, (s1, s2) in enumerate([(range(5), range(6)), (range(5), range(1, 6)), (['a', 'b'], ['a', 'c']), (range(3), [0, 1, 2])]):
         if not ctx.mine(k):
